@@ -201,6 +201,26 @@ pub fn ctor(r: &mut Rep, ri: u16, pbase: u64) {
                 r.viol("C20|RecursivePageTable::new|verdict-does-not-follow-the-root-register-across-a-switch", &format!("ctorswitch {} {:#x} first_own={}", ri, pbase, first_own), &format!("{:?} expected {:?} (1 = Ok, 2 = NotActive)", res, exp));
             }
         }
+        // the same without a loop: read the root, switch it, construct; switch back, construct
+        for first_own in [true, false] {
+            cpu().cr[3] = if first_own { l4_phys } else { other_phys };
+            let res = run_fault(|| {
+                let code = |x: Result<RecursivePageTable, InvalidPageTable>| match x { Ok(_) => 1u8, Err(InvalidPageTable::NotActive) => 2, Err(InvalidPageTable::NotRecursive) => 3 };
+                let (cur, fl) = Cr3::read();
+                let nxt = if cur == own { other } else { own };
+                unsafe { Cr3::write(nxt, fl) };
+                let a = code(RecursivePageTable::new(unsafe { &mut *(l4 as *mut PageTable) }));
+                let (cur2, _) = Cr3::read();
+                unsafe { Cr3::write(cur, fl) };
+                let b = code(RecursivePageTable::new(unsafe { &mut *(l4 as *mut PageTable) }));
+                (a, b, cur2 == nxt)
+            });
+            r.ev(true);
+            let exp = if first_own { (2u8, 1u8, true) } else { (1u8, 2u8, true) };
+            if res != Ok(exp) {
+                r.viol("C20|RecursivePageTable::new|verdict-does-not-follow-the-root-register-across-a-switch", &format!("ctorswitch {} {:#x} straight first_own={}", ri, pbase, first_own), &format!("{:?} expected {:?} (1 = Ok, 2 = NotActive)", res, exp));
+            }
+        }
         cpu().cr[3] = l4_phys;
     }
     // the index it then uses: the first window address dereferenced for a page with p4 = 3 must be (R,R,R,3)
